@@ -27,13 +27,48 @@ def run_db(v, pid, mode, n, steps, rule, known_prefix_map=None):
     out = os.path.join(C.WORK, pid)
     shutil.rmtree(out, ignore_errors=True)
     os.makedirs(out, exist_ok=True)
-    rc, o = C.sh([C.harness_bin("db"), "-out", out, "-n", str(n), "-steps", str(steps), "-seed", str(v.seed),
-                  "-mode", mode], timeout=3000)
-    sp = os.path.join(out, "stats.json")
-    if rc != 0 or not os.path.exists(sp):
-        v.violation("%s/harness-run" % pid, o[-1500:], {"theorem_or_correspondence": "correspondence db (harness run)"}, False)
-        return None
-    stats = json.load(open(sp))
+    # histories are independent: run them in parallel shards (index % shards), then merge
+    import subprocess
+    shards = min(8, max(1, n))
+    procs = []
+    for k in range(shards):
+        so = os.path.join(out, "shard%d" % k)
+        os.makedirs(so, exist_ok=True)
+        procs.append((so, subprocess.Popen([C.harness_bin("db"), "-out", so, "-n", str(n), "-steps", str(steps), "-seed", str(v.seed),
+                                            "-mode", mode, "-shard", str(k), "-shards", str(shards)],
+                                           stdout=subprocess.PIPE, stderr=subprocess.STDOUT)))
+    stats = {"cases": 0, "classes": {}, "samples": [], "impl_violations": [],
+             "extra": {"acks": 0, "restores": 0, "sync_steps": 0, "histories": 0, "distinct_histories": 0,
+                       "nontrivial_histories": 0, "op_counts": {}}}
+    cases = os.path.join(out, "cases.txt")
+    with open(cases, "w") as cf:
+        for so, p in procs:
+            try:
+                o, _ = p.communicate(timeout=3000)
+            except subprocess.TimeoutExpired:
+                p.kill()
+                o = b"TIMEOUT"
+            sp = os.path.join(so, "stats.json")
+            if p.returncode != 0 or not os.path.exists(sp):
+                v.violation("%s/harness-run" % pid, o.decode("utf-8", "replace")[-1500:],
+                            {"theorem_or_correspondence": "correspondence db (harness run)"}, False)
+                return None
+            st = json.load(open(sp))
+            stats["cases"] += st["cases"]
+            for k2, n2 in (st.get("classes") or {}).items():
+                stats["classes"][k2] = stats["classes"].get(k2, 0) + n2
+            stats["samples"] += (st.get("samples") or [])[-2:]
+            stats["impl_violations"] += st.get("impl_violations") or []
+            for k2, n2 in (st.get("extra") or {}).items():
+                if k2 == "op_counts":
+                    for a, b in n2.items():
+                        stats["extra"]["op_counts"][a] = stats["extra"]["op_counts"].get(a, 0) + b
+                elif k2 == "histories":
+                    pass
+                else:
+                    stats["extra"][k2] = stats["extra"].get(k2, 0) + n2
+            cf.write(open(os.path.join(so, "cases.txt")).read())
+    stats["extra"]["histories"] = n
     ex = stats.get("extra", {})
     cases = os.path.join(out, "cases.txt")
     total, mism, errors = (0, [], [])
